@@ -223,6 +223,10 @@ def search(chk, broken):
             if rng.random() < 0.25:
                 # the user edits the shot he keeps IN PLACE (wind speed / direction / extent, angles, sight height, twist, load data, ...)
                 sg.edit_in_place(pbc, rng, shot)
+            elif len(shot._winds) >= 2 and rng.random() < 0.3:
+                # ... in particular the EXTENT of wind segments, so that the order in which they act changes (no wind object added or removed)
+                wa, wb = shot._winds[0], shot._winds[-1]
+                wa.until_distance, wb.until_distance = wb.until_distance, wa.until_distance
             fresh = pbc.Calculator(_config=calc._verif_cfgdict)
             if rng.random() < 0.5:
                 shot2 = copy.deepcopy(shot)
